@@ -66,7 +66,8 @@ impl Op {
         let v = j.get("v")?;
         let us = || v.as_u64().map(|x| x as usize);
         let st = || v.as_str().map(|s| s.to_string());
-        let fl = || v.as_array().map(|a| a.iter().filter_map(|x| x.as_f64()).collect::<Vec<f64>>());
+        // JSON has no NaN: a null entry stands for it
+        let fl = || v.as_array().map(|a| a.iter().filter_map(|x| if x.is_null() { Some(f64::NAN) } else { x.as_f64() }).collect::<Vec<f64>>());
         Some(match j.get("op")?.as_str()? {
             "shape" => Op::Shape(us()?),
             "margin" => Op::Margin(us()?),
@@ -118,7 +119,8 @@ pub fn alphabet() -> Vec<Op> {
     for (s, g) in [(5.0, 1.0), (0.0, 0.0), (7.5, 0.25), (9.1, 0.3)] {
         a.push(Op::ImageSize(s, g));
     }
-    for p in [vec![], vec![3.0], vec![3.0, 4.0], vec![1.0, 2.0, 3.0], vec![12.3, 7.7]] {
+    // [NaN, 5]: what a JS caller's `undefined` becomes; it is a pair, and the native builder given the same pair prints it
+    for p in [vec![], vec![3.0], vec![3.0, 4.0], vec![1.0, 2.0, 3.0], vec![12.3, 7.7], vec![f64::NAN, 5.0]] {
         a.push(Op::ImagePosition(p));
     }
     for s in COLOUR_STRINGS {
@@ -408,7 +410,7 @@ pub fn replay(case: &Value) -> Result<Vec<(String, String)>, String> {
 
 pub fn run(ctx: &Ctx) -> Collector {
     let col = Collector::new("C17", "model_checking");
-    col.set_rule("E2: breadth-first search over SvgOptions setter programs to depth D (quick 3, thorough 4) from SvgOptions::new(), 87-operation alphabet {shape x6, margin x3, ecl x4, version x3, image x5 (one holding literal entities), image_background_shape x3, image_size x4, image_position x5 (lengths 0,1,2,3), three colour setters x 18 strings (6 well-formed incl. an explicit opaque and an explicit transparent alpha, 12 malformed)}; states de-duplicated on the implementation's own Debug string; EVERY (state, operation) transition is executed on the real object (setters may panic); in every distinct state qr_svg is compared with the native SvgBuilder configured from the abstract model for 5 small contents (empty, digits, alphanumeric, bytes, multi-byte UTF-8), and in all states of depth <= 1 also for the level-Q capacity edges +-1 of the three modes and an 8000-character content; qr() compared with the native default build on those contents and every length around the capacity edges; depth 1: all 3905 strings of length <= 5 over {# 0 f g e-acute} through each colour setter; oracle: no call panics; well-formed colour strings (#?RRGGBB[AA]) take effect, malformed ones are ignored or leave a valid colour; outputs byte-identical to native; non-trivial = a document or matrix was returned; distinct = distinct returned strings/arrays");
+    col.set_rule("E2: breadth-first search over SvgOptions setter programs to depth D (quick 3, thorough 4) from SvgOptions::new(), 88-operation alphabet {shape x6, margin x3, ecl x4, version x3, image x5 (one holding literal entities), image_background_shape x3, image_size x4, image_position x6 (lengths 0,1,2,3; one pair with a NaN entry), three colour setters x 18 strings (6 well-formed incl. an explicit opaque and an explicit transparent alpha, 12 malformed)}; states de-duplicated on the implementation's own Debug string; EVERY (state, operation) transition is executed on the real object (setters may panic); in every distinct state qr_svg is compared with the native SvgBuilder configured from the abstract model for 5 small contents (empty, digits, alphanumeric, bytes, multi-byte UTF-8), and in all states of depth <= 1 also for the level-Q capacity edges +-1 of the three modes and an 8000-character content; qr() compared with the native default build on those contents and every length around the capacity edges; depth 1: all 3905 strings of length <= 5 over {# 0 f g e-acute} through each colour setter; oracle: no call panics; well-formed colour strings (#?RRGGBB[AA]) take effect, malformed ones are ignored or leave a valid colour; outputs byte-identical to native; non-trivial = a document or matrix was returned; distinct = distinct returned strings/arrays");
     col.assume("hook H4 compiles src/wasm.rs unchanged for the host (64-bit usize); the real wasm32 target is not executed");
     col.assume("colours held by the option object are observed black-box by rendering a probe document; the Debug string is used only as an opaque de-duplication key");
     let thorough = ctx.tier.thorough();
